@@ -23,6 +23,39 @@ CLAIMED = {
         design_ref='DESIGN.md §6 C05'),
 }
 
+CLAIMED.update({
+    'C07': dict(
+        text='Lean 4 state-machine model of Trajectories/RecordsBase (dict of dicts + sorted-key cache) with 21 theorems: '
+             'representation invariant in every reachable state, refinement of each mutation to the plain-map operation, '
+             'sorted-list/membership/lookup specs, interpolation = nearest earlier/later carrier within the interval (never '
+             'fails), num_digits (GENERATED from the source) = decimal digit count, timestamp_length spec, and history '
+             'independence for histories of any length. Tied by op-sequence correspondence (exhaustive short + long random).',
+        note=COMMON_NOTE + 'slerp/linear interpolation is opaque (arguments compared); TypeError branches and dict methods other '
+             'than the listed operations are outside the model.',
+        technique='Lean 4 proof (invariant + refinement by induction over operation lists) + generated num_digits + '
+                  'op-sequence differential correspondence',
+        design_ref='DESIGN.md §6 C07'),
+    'C17': dict(
+        text='Lean 4 model of prob_status/download/install against an ARBITRARY server function; theorems for every server, '
+             'prior state, force and no_cleaning: at most one extraction and only of bytes whose checksum matches; marker '
+             'implies verified extraction (or stale marker without force); any other outcome leaves nothing extracted/marked; '
+             'liveness against an honest server incl. resume. Tied by fault-script correspondence with a fake requests module.',
+        note=COMMON_NOTE + 'SHA-256 is an abstract predicate (driver: equality with the good content); requests/tarfile/yaml are '
+             'replaced or observed at their interface; Dataset.upgrade() after install is outside (C20).',
+        technique='Lean 4 proof (case analysis + induction on attempts, universally quantified server) + fault-script '
+                  'differential correspondence',
+        design_ref='DESIGN.md §6 C17'),
+    'C19': dict(
+        text='Lean 4 decision-function model of delete_existing_kapture_files over tables GENERATED from the live modules; '
+             'theorems for all only/skip/answer/directory states: no deletion without consent, the plan is EXACTLY the existing '
+             'paths selected by only/skip (record data kept when a kept part needs it), no duplicates, only dataset paths, '
+             'skip survives, links are unlinked. Tied by sandbox correspondence on real directories.',
+        note=COMMON_NOTE + 'os.remove/rmtree/lexists/islink are observed through snapshots, not modelled; user-defined part '
+             'types in only/skip are outside; skip=[RecordsBase] follows the code (does not protect records_data).',
+        technique='Lean 4 proof over generated tables (decide for table side-conditions) + sandbox differential correspondence',
+        design_ref='DESIGN.md §6 C19'),
+})
+
 NOT_YET = {
 }
 
